@@ -37,7 +37,7 @@ def run_task(task: dict) -> dict:
     t0 = time.time()
     req = Request.make(task["assignment"], task["formats"])
     res = {"request": req.asdict(), "dimvec": task["dimvec"], "N": task["N"], "status": "ok",
-           "stats": {}, "wall_s": 0.0}
+           "stats": {}, "wall_s": 0.0, "spec": task.get("spec")}
     try:
         comp = compile_request(req, kinds=("evaluate",), optimise=True)
         if comp.refusal:
@@ -65,6 +65,14 @@ def _explore_evaluate(comp, task):
     args = list(comp.formats.keys())
     sent = cap_sentinel()
     idims = {i: dv[cls[i]] for i in cls}
+    spec_asg = comp.assignment
+    if task.get("spec"):
+        # the specification comes from the caller (C11: from the operator), not from the request
+        from tensora.expression import parse_assignment
+
+        spec_asg = parse_assignment(task["spec"]).unwrap()
+        tdims = setup.dims_of(comp.target)
+        idims = {i: tdims[k] for k, i in enumerate(spec_asg.target.indexes)}
     stats = Stats()
     covered = set()
     flags = {"nonempty": False, "grew": False, "checked_value": 0, "checked_support": 0,
@@ -106,10 +114,10 @@ def _explore_evaluate(comp, task):
                 flags["nonempty"] = True
         eo = kassert.input_entries(m, setup.infos, setup.cache.setdefault("entries", {}))
         if "value" in families:
-            kassert.check_value(m, comp.target, comp.assignment, counts, eo, idims, setup.cache)
+            kassert.check_value(m, comp.target, spec_asg, counts, eo, idims, setup.cache)
             flags["checked_value"] += 1
         if "support" in families:
-            n = kassert.check_support(m, comp.target, comp.assignment, counts, eo)
+            n = kassert.check_support(m, comp.target, spec_asg, counts, eo)
             flags["checked_support"] += n or 0
         if task.get("want_witness", True) and ("witness" not in out or not out.get("witness_nonempty")):
             _capture_witness(m, setup, out, counts if families & {"canon", "handback", "value", "support"} else None)
